@@ -460,6 +460,9 @@ inductive EditOp where
   | clearTermEdgeComments                               -- Tree.ClearTerminalEdgeComments
   | scaleSupports (x : Rat)                             -- Tree.ScaleSupports
   | roundSupports0                                      -- Tree.RoundSupports(0)
+  | collapseClade (strict : Bool) (name : String) (tips : List String)   -- Tree.CollapseClade (the clade is dropped)
+  | annotate (comment : Bool) (lines : List (List String))              -- Tree.Annotate
+  | addBip (path : List Nat) (slots : List Nat) (len sup : Rat)         -- Tree.AddBipartition(node at path, n.br[slots], len, sup)
   deriving Repr
 
 def applyOp : EditOp → T → Res T
@@ -543,6 +546,12 @@ def applyOp : EditOp → T → Res T
   | .clearTermEdgeComments, t => .ok (clearTermEdgeComments t)
   | .scaleSupports q, t => .ok (scaleSupports q t)
   | .roundSupports0, t => .ok (roundSupports0 t)
+  | .collapseClade strict name tips, t => collapseClade strict name tips t
+  | .annotate comment lines, t => annotate comment lines t
+  | .addBip p S l sp, t =>
+    match addBipAt S l sp p t with
+    | some t' => .ok t'
+    | none => .err "we cannot add the bipartition, it already exists"
 
 /-- a history: stops at the first operation that does not report success -/
 def runOps : T → List EditOp → Res T
@@ -598,6 +607,12 @@ def opPre (ns : Bool) : EditOp → T → Bool
   | .outgroup remove _ _, t => remove || (Gotree.C05.lensOK t && Gotree.C05.supsOK t)
   | .midpoint, t => Gotree.C05.lensOK t && Gotree.C05.supsOK t
   | .graftEdge name _, t => !t.tipNames.contains name
+  -- the tip that replaces the clade carries a new name
+  | .collapseClade _ name _, t => !t.tipNames.contains name
+  -- renaming mode may give two tips the same name (Annotate does not look): the closure is stated for comment mode
+  | .annotate comment _, _ => comment
+  -- the branches are given by distinct slots
+  | .addBip _ S _ _, _ => decide S.Nodup
   | _, _ => true
 
 /-- the preconditions hold all along the history (evaluated by the driver as a tag) -/
